@@ -10,9 +10,12 @@ func init() {
 	SSE4x4 = sse4x4SSE2
 	SSE16x16 = sse16x16SSE2
 
-	// WHT transforms.
+	// WHT transforms. The inverse WHT keeps the portable implementation:
+	// transformWHTSSE2 adds in wrapping 16-bit lanes, so second-level (Y2)
+	// coefficients whose butterfly sums leave the int16 range - legal in a
+	// bitstream, never produced by an encoder - decoded differently from the
+	// portable code and from libwebp.
 	FTransformWHT = fTransformWHTSSE2
-	TransformWHT = transformWHTSSE2
 
 	// 16x16 luma prediction modes.
 	PredLuma16[0] = dc16SSE2
